@@ -63,6 +63,17 @@ def _check(job):
     import props.C01 as C01
     fmt, a, b, opt = job
     fails = []
+    spec = None
+    if fmt == 'biglist':
+        # lists whose total cost exceeds 2**16 (and, with wide members, 2**17): spec a = [members, width], b = [kept, changed]
+        spec = (a, b)
+        rl = random.Random(a[0] * 1000003 + a[1])      # (log-like lines of unrelated text)
+        lines = [''.join(rl.choice('abcdefghij') for _ in range(a[1])) for _ in range(a[0])]
+        kept = lines[:b[0] // 2] + lines[len(lines) - (b[0] - b[0] // 2):] if b[0] else []
+        rev = len(b) > 2 and b[2]
+        a, b, fmt = lines, [x if i >= b[1] else x[:-3] + 'XYZ' for i, x in enumerate(kept)], 'json'
+        if rev:
+            a, b = {"log": b, "rev": 1}, {"log": a, "rev": 2}      # (insertions, nested in a mapping)
     try:
         if fmt == 'plist>json':
             # a plist document compared with a document of another format: PLISTNode.edits hands over to its root
@@ -98,7 +109,7 @@ def _check(job):
                                   f"get_all_edits {fs}", 'class': 'c03-views-disagree' + suffix})
         # one base, several revisions: the annotated result of a diff is itself a tree and can be diffed again; the views of
         # the second comparison must agree with each other and the first annotated tree must keep its own cost
-        if fmt == 'json' and not fails:
+        if fmt == 'json' and not fails and spec is None:
             base = C01._build(fmt, a, opt)
             d1 = base.diff(C01._build(fmt, b, opt))
             c1 = d1.edited_cost()
@@ -118,8 +129,12 @@ def _check(job):
                                       f"diffed against {rev2!r}", 'class': 'c03-rediff-retroactive'})
     except Exception as ex:
         fails.append({'what': f"{type(ex).__name__}: {ex}", 'class': f'c03-exception:{type(ex).__name__}'})
+    if spec is not None:
+        a, b, fmt = f"<list of {spec[0][0]} strings of {spec[0][1]} random characters (random.Random(n * 1000003 + width))>", f"<the first and last {spec[1][0]} // 2 of them>" + (' (reversed, nested in a mapping)' if len(spec[1]) > 2 and spec[1][2] else ''), 'biglist'
     for f in fails:
         f['what'] = f"{f['what']} [{fmt}: {a!r} -> {b!r}, opt={opt}]"
+        if spec is not None:
+            a, b = spec
         f['input'] = {'fmt': fmt, 'a': a, 'b': b, 'opt': opt}
         f['replay'] = {'kind': 'doc', 'fmt': fmt, 'a': a, 'b': b, 'opt': opt}
     return fails
@@ -146,12 +161,20 @@ def bounded(tier, seed, repo_root):
     xs = gt.xml_specs()
     for _ in range(300 if tier == 'quick' else 3000):
         jobs.append(('xml', rnd.choice(xs), rnd.choice(xs), gt.OPTION_COMBOS[rnd.randrange(9)]))
+    # totals above 2**16 (the cost matrices are numpy arrays of fixed width)
+    # (members that are kept are kept unchanged: changed long members make the comparison itself take minutes)
+    big = [([400, 200], [6, 0]), ([700, 100], [0, 0]), ([350, 400], [10, 0]), ([1200, 60], [100, 0]), ([400, 200], [6, 0, 1]), ([800, 200], [20, 0, 1])]
+    if tier != 'quick':
+        big += [([800, 200], [20, 0]), ([3000, 30], [1000, 0]), ([3000, 30], [1000, 0, 1]), ([5000, 100], [2, 0])]
+    for sa, sb in big:
+        for o in (gt.OPTION_COMBOS[0], gt.OPTION_COMBOS[3]):      # (list edits on: positional pairing of unrelated long strings takes minutes)
+            jobs.append(('biglist', sa, sb, o))
     res = pmap(_check, jobs, repo_root, job_timeout=60, on_timeout=timeout_failure('C03'))
     fails = [f for fs in res for f in fs if f['class'].startswith('c03-')]
     return [{
         'name': 'C03.cost-sums', 'bound': f"documents <= {4 if tier == 'quick' else 5} nodes over {atoms!r} "
         f"({'all' if exhaustive else 'seeded sample of'} {len(pairs)} pairs, options cycling) + structured pairs with containers of "
-        f"different sizes + XML pairs + plist documents compared with JSON documents",
+        f"different sizes + XML pairs + plist documents compared with JSON documents + {len(big)} long lists of long strings whose total cost exceeds 2**16",
         'evaluations': len(jobs), 'distinct_nontrivial': len({(j[0], repr(j[1]), repr(j[2])) for j in jobs}), 'exhaustive': False,
         'rule': 'pair x options -> at every level the refined cost of a compound edit equals the sum of the costs of the '
                 'sub-edits it lists; refined top-level bounds == edited_cost() == sum over get_all_edits()',
